@@ -1,7 +1,7 @@
 (* Props/C05.v — C05: rendered unified diffs are well-formed and apply exactly. *)
 From Coq Require Import NArith.
 From Similar Require Import Model.Base Model.Iter Model.Capture Model.Utf8 Model.Tokenize
-     Model.TextDiff Spec.Script Spec.Patch Spec.UdiffHunks Check.Script Proofs.Udiff.
+     Model.TextDiff Spec.Script Spec.Patch Spec.UdiffHunks Spec.UdiffParse Check.Script Proofs.Udiff Proofs.UdiffParse.
 
 Theorem c05_bytes_eqb_iff :
   forall a b : list N, bytes_eqb a b = true <-> a = b.
@@ -255,3 +255,69 @@ Example c05_empty_op_group :
   model_hunks [] [] [Delete 0 0 0] 3 =
     Ok [ {| h_oshown := 0; h_olen := 0; h_nshown := 0; h_nlen := 0; h_body := [] |} ].
 Proof. vm_compute. split; reflexivity. Qed.
+
+(* ---------------------------------------------------------------------- *)
+(* the parser used by the run-time check on the real crate's output        *)
+(* (Spec/UdiffParse.v, extracted): it accepts exactly the printer's image  *)
+(* ---------------------------------------------------------------------- *)
+Theorem c05_parse_sound :
+  forall (hint : bool) (header : option (list N * list N)) (s : list N) (hs : list hunk),
+    parse_udiff hint header s = Some hs -> print_udiff hint header hs = s.
+Proof. exact parse_sound. Qed.
+Print Assumptions c05_parse_sound.
+
+(* what "parse, then check_patch" on the real bytes means *)
+Theorem c05_parse_check_meaning :
+  forall (hint : bool) (header : option (list N * list N)) (s : list N) (n : nat) (hs : list hunk)
+         (old new : list (list N)),
+    parse_udiff hint header s = Some hs ->
+    check_patch n hs old new = true ->
+    s = print_udiff hint header hs /\
+    apply_strict hs old = Some new /\
+    Forall (fun h : hunk => hunk_shape_ok n h = true) hs.
+Proof. exact parse_check_meaning. Qed.
+Print Assumptions c05_parse_check_meaning.
+
+Theorem c05_parse_print :
+  forall (header : option (list N * list N)) (hs : list hunk),
+    Forall HunkWf hs ->
+    parse_udiff true header (print_udiff true header hs) = Some hs.
+Proof. exact parse_print. Qed.
+Print Assumptions c05_parse_print.
+
+Theorem c05_parse_print_nohint :
+  forall (header : option (list N * list N)) (hs : list hunk),
+    Forall HunkWf hs ->
+    parse_udiff false header (print_udiff false header hs) = Some (map norm_hunk hs).
+Proof. exact parse_print_nohint. Qed.
+Print Assumptions c05_parse_print_nohint.
+
+(* the model's rendering of the line tokens of ANY two byte texts parses back
+   and applies strictly (no premise on the lines) *)
+Theorem c05_text_render_parse_applies :
+  forall (bm : bool) (o nw : list N) (ops : list op) (n : nat) (header : option (list N * list N)),
+    let old := map (tok_bytes o) (tokenize bm TkLines o) in
+    let new := map (tok_bytes nw) (tokenize bm TkLines nw) in
+    OpsExact (cmp_of bytes_eqb (slice_lookup old) (slice_lookup new)) 0 (length old) 0 (length new) ops ->
+    Alternating ops ->
+    exists (s : list N) (hs : list hunk),
+      render_udiff old new true true false ops n header = Ok s /\
+      parse_udiff true header s = Some hs /\ check_patch n hs old new = true.
+Proof. exact text_render_parse_applies. Qed.
+Print Assumptions c05_text_render_parse_applies.
+
+(* hint off: "a" and "a\n" print alike; the parser returns the normalised
+   hunks and they apply to the normalised lines *)
+Theorem c05_render_parse_applies_nohint :
+  forall old new : list (list N),
+    LinesOkL old -> LinesOkL new ->
+    forall (ops : list op) (n : nat) (header : option (list N * list N)),
+    OpsExact (cmp_of bytes_eqb (slice_lookup old) (slice_lookup new)) 0 (length old) 0 (length new) ops ->
+    Alternating ops ->
+    exists (s : list N) (hs : list hunk),
+      render_udiff old new true false false ops n header = Ok s /\
+      model_hunks old new ops n = Ok hs /\
+      parse_udiff false header s = Some (map norm_hunk hs) /\
+      check_patch n (map norm_hunk hs) (map norm_line old) (map norm_line new) = true.
+Proof. exact render_parse_applies_nohint. Qed.
+Print Assumptions c05_render_parse_applies_nohint.
